@@ -25,6 +25,8 @@ type Cfg struct {
 	TimerP    float64 `json:"timer_p"`
 	MaxConsec int     `json:"max_consec"`
 	SchedSeed uint64  `json:"sched_seed"`
+	PCT         int     `json:"pct"`
+	PCTSteps    int     `json:"pct_steps"`
 }
 
 type Op struct {
@@ -79,6 +81,9 @@ func (H) Gen(p string, seed uint64, tier string) *hx.Case {
 		cfg.Clients = 1
 	}
 	cfg.YieldP = []float64{0, 0.05, 0.2, 0.5}[r.Intn(4)]
+	if r.Chance(0.3) {
+		cfg.PCT, cfg.PCTSteps = r.Range(1, 4), []int{50, 300, 2000, 10000}[r.Intn(4)]
+	}
 	if r.Chance(0.2) {
 		cfg.TimerP = 0.05
 	}
@@ -371,7 +376,7 @@ func (H) Run(t *testing.T, c *hx.Case) *hx.Outcome {
 		}
 	}
 	r := &run{cfg: cfg, out: out, slots: make([][]*rec, cfg.Clients)}
-	scfg := simrt.Config{Seed: cfg.SchedSeed, YieldP: cfg.YieldP, TimerP: cfg.TimerP, MaxConsec: cfg.MaxConsec, StepBudget: 20_000_000}
+	scfg := simrt.Config{Seed: cfg.SchedSeed, YieldP: cfg.YieldP, TimerP: cfg.TimerP, MaxConsec: cfg.MaxConsec, PCT: cfg.PCT, PCTSteps: cfg.PCTSteps, StepBudget: 20_000_000}
 	maxLive := 0
 	res := simrt.Run(scfg, func() {
 		debug.SetPanicOnFault(true)
